@@ -1331,23 +1331,26 @@ Qed.
 Lemma digits_nonspace ds : forallb c_isdigit ds = true -> forallb (fun c => negb (c_isspace c) && negb (c =? 0)) ds = true.
 Proof. apply forallb_imp. intros c H. unfold c_isdigit, c_isspace in *. lia. Qed.
 
-Lemma nonspace_trimmed v : forallb (fun c => negb (c_isspace c) && negb (c =? 0)) v = true ->
-  NN v /\ ltrim v = v /\ rtrim v = v.
+Lemma value_ws_space id c : value_ws id c = true -> c_isspace c = true.
+Proof. unfold value_ws. destruct (framing_id id); [|auto]. unfold is_wsp, c_isspace. lia. Qed.
+
+Lemma nonspace_trimmed id v : forallb (fun c => negb (c_isspace c) && negb (c =? 0)) v = true ->
+  NN v /\ ltrim_by (value_ws id) v = v /\ rtrim_by (value_ws id) v = v.
 Proof.
   intros H. split; [|split].
   - revert H. apply forallb_imp. intros c Hc. now apply andb_prop in Hc as [_ Hc].
   - destruct v as [|c r]; [reflexivity|]. cbn [forallb] in H. apply andb_prop in H as [Hc _].
-    apply andb_prop in Hc as [Hc _]. apply ltrim_nonspace. now destruct (c_isspace c).
-  - apply rtrim_no_trail. destruct (last_is c_isspace v) eqn:El; [|reflexivity].
-    destruct (last_is_forall _ _ _ H El) as (c & Hc & Hs). rewrite Hs in Hc. discriminate.
+    apply andb_prop in Hc as [Hc _]. apply ltrim_by_non.
+    destruct (value_ws id c) eqn:E; [|reflexivity]. rewrite (value_ws_space _ _ E) in Hc. discriminate.
+  - apply rtrim_by_no_trail. destruct (last_is (value_ws id) v) eqn:El; [|reflexivity].
+    destruct (last_is_forall _ _ _ H El) as (c & Hc & Hs). rewrite (value_ws_space _ _ Hs) in Hc. discriminate.
 Qed.
-
 Lemma cl_entry_stor v : (0 <= v < two63)%Z -> stor (h_cl_entry v) /\ single_line (he_value (h_cl_entry v)).
 Proof.
   intros Hv. destruct (digits_token true v Hv) as (w & ds & t & _). clear w ds t.
   assert (Hn : Z.to_N v < 10 ^ N.of_nat 20) by (unfold two63 in Hv; change (10 ^ N.of_nat 20) with 100000000000000000000; lia).
   destruct (dec_digits_spec 19 _ Hn) as (_ & Hd & _).
-  destruct (nonspace_trimmed _ (digits_nonspace _ Hd)) as (A & B & C).
+  destruct (nonspace_trimmed ID_CL _ (digits_nonspace _ Hd)) as (A & B & C).
   assert (Hname : name_content_length <> [] /\ forallb cs_TCHAR name_content_length = true /\ lenN name_content_length <= 65534)
     by (vm_compute; repeat split; discriminate).
   destruct Hname as (N1 & N2 & N3).
